@@ -50,4 +50,86 @@ theorem rot_unique (n c w : Nat) (hc : c < n) (hw : w < n) :
     rw [mod_two _ n (by omega)] at hjw
     split at hjw <;> split <;> omega
 
+
+/-! ## The priority queue (`PriorityQueue::{pop_front, discard_oldest}`) -/
+
+theorem takeFirst_spec {f : Job → Bool} {l : List Job} {x : Job} {r : List Job} (h : takeFirst f l = some (x, r)) :
+    ∃ pre post, l = pre ++ x :: post ∧ r = pre ++ post ∧ f x = true ∧ ∀ y ∈ pre, f y = false := by
+  induction l generalizing x r with
+  | nil => simp [takeFirst] at h
+  | cons j rest ih =>
+    unfold takeFirst at h
+    by_cases hf : f j = true
+    · simp only [hf, if_true, Option.some.injEq, Prod.mk.injEq] at h
+      obtain ⟨h1, h2⟩ := h
+      subst h1; subst h2
+      exact ⟨[], rest, rfl, rfl, hf, fun _ hy => by cases hy⟩
+    · have hf' : f j = false := by simpa using hf
+      simp only [hf', Bool.false_eq_true, if_false] at h
+      cases ht : takeFirst f rest with
+      | none => rw [ht] at h; simp at h
+      | some xr =>
+        obtain ⟨x', r'⟩ := xr
+        rw [ht] at h
+        simp only [Option.some.injEq, Prod.mk.injEq] at h
+        obtain ⟨h1, h2⟩ := h
+        subst h1; subst h2
+        obtain ⟨pre, post, e1, e2, e3, e4⟩ := ih ht
+        refine ⟨j :: pre, post, by rw [e1]; rfl, by rw [e2]; rfl, e3, ?_⟩
+        intro y hy
+        rcases List.mem_cons.mp hy with hy | hy
+        · rw [hy]; exact hf'
+        · exact e4 y hy
+
+theorem takeFirst_none {f : Job → Bool} {l : List Job} (h : takeFirst f l = none) : ∀ y ∈ l, f y = false := by
+  induction l with
+  | nil => intro y hy; cases hy
+  | cons j rest ih =>
+    unfold takeFirst at h
+    by_cases hf : f j = true
+    · simp [hf] at h
+    · have hf' : f j = false := by simpa using hf
+      simp only [hf', Bool.false_eq_true, if_false] at h
+      cases ht : takeFirst f rest with
+      | none =>
+        intro y hy
+        rcases List.mem_cons.mp hy with hy | hy
+        · rw [hy]; exact hf'
+        · exact ih ht y hy
+      | some xr => rw [ht] at h; simp at h
+
+/-- scanning the classes in the order `ps`: the result is the first job of the first non-empty class, the
+other jobs keep their order -/
+theorem popByPrio_spec {cfg : Cfg} {ps : List Nat} {q : List Job} {x : Job} {r : List Job}
+    (h : popByPrio cfg ps q = some (x, r)) :
+    ∃ ps1 ps2, ps = ps1 ++ prioOf cfg x :: ps2 ∧ (∀ p' ∈ ps1, ∀ y ∈ q, prioOf cfg y ≠ p') ∧
+      ∃ pre post, q = pre ++ x :: post ∧ r = pre ++ post ∧ ∀ y ∈ pre, prioOf cfg y ≠ prioOf cfg x := by
+  induction ps with
+  | nil => simp [popByPrio] at h
+  | cons p ps ih =>
+    unfold popByPrio at h
+    cases ht : takeFirst (fun j => prioOf cfg j == p) q with
+    | some xr =>
+      obtain ⟨x', r'⟩ := xr
+      rw [ht] at h
+      simp only [Option.some.injEq, Prod.mk.injEq] at h
+      obtain ⟨h1, h2⟩ := h
+      subst h1; subst h2
+      obtain ⟨pre, post, e1, e2, e3, e4⟩ := takeFirst_spec ht
+      have hp : prioOf cfg x' = p := by simpa using e3
+      refine ⟨[], ps, by rw [hp]; rfl, (fun _ hp' => by cases hp'), pre, post, e1, e2, ?_⟩
+      intro y hy
+      have := e4 y hy
+      rw [hp]; simpa using this
+    | none =>
+      rw [ht] at h
+      simp only at h
+      obtain ⟨ps1, ps2, e1, e2, e3⟩ := ih h
+      refine ⟨p :: ps1, ps2, by rw [e1]; rfl, ?_, e3⟩
+      intro p' hp' y hy
+      rcases List.mem_cons.mp hp' with hp' | hp'
+      · have := takeFirst_none ht y hy
+        rw [hp']; simpa using this
+      · exact e2 p' hp' y hy
+
 end Factory
